@@ -11,10 +11,12 @@ package main
 //             state after every operation (offset, buffer capacity, save state), popped
 //             checkpoints, messages read by a fresh reader resumed from a popped checkpoint.
 //             Seek source: the model predicts the emissions; decompressors: the observed
-//             emissions are replayed in the model.
+//             emissions are replayed in the model. Half of the cases also call Resume on the
+//             reader while it is in use (c13_rewind.go; model: Wire/Rewind.v).
 // Oracle-only cases (group ""): every size class up to 4 MiB+1 and beyond (4 MiB+64 KiB .. 16 MiB+1,
 // thorough 64 MiB+1), every registered codec, checkpoints popped at every boundary, gob round
-// trip, fresh reader, remaining messages.
+// trip, fresh reader, remaining messages; the same with readers that are rewound / restarted
+// while in use, whatever save they have in flight (c13_rewind.go).
 //
 // Caller behaviour is part of the input: the way the caller hands a message struct to
 // ReadMessage (a new one per read, ONE struct reused for every read - what every reader of
@@ -420,58 +422,77 @@ func c13Ungob(b []byte) (*wire.MessageReaderCheckpoint, error) {
 // ---------- schedules and traces ----------
 
 type c13Ev struct {
-	op     byte // 'W' 'P' 'R'
+	op     byte // 'W' 'P' 'R', and 'Z' = Resume on this same (used) reader, see c13_rewind.go
 	msg    *wire.Sample
 	cls    string
 	ck     *wire.MessageReaderCheckpoint
 	gobbed []byte
-	k      int // messages read before this op
+	k      int // position (messages before the reader) before this op
 	off    int64
 	cap    int
 	save   int
 	scOff  int64
 	detail string // text of a failed read, for the replay only
+	// 'Z' only: index in the trace of the pop whose checkpoint is handed to Resume (-1: Resume(nil),
+	// start over) and the position it stands for. The checkpoint is always decoded afresh from
+	// its gob bytes, as the property has it ("after serialization"): a gzip checkpoint *object*
+	// can be resumed once only - kompress' flate.Checkpoint.Resume hands the checkpoint's own
+	// window slice to the reader it creates, which then writes into it.
+	target int
+	kTo    int
 }
 
 // schedule kinds
 var c13Scheds = []string{"all", "even", "third", "random", "once", "wantall-popthird", "popfirst", "none", "want-only-end"}
 
+// c13AtBoundary: does the schedule request a save / pop before the read at boundary k
+func c13AtBoundary(r *lib.Rng, sched string, k, n, once int) (w, p bool) {
+	switch sched {
+	case "all", "popfirst":
+		w, p = true, true
+	case "even":
+		w, p = k%2 == 0, true
+	case "third":
+		w, p = k%3 == 1, k%3 == 1
+	case "random":
+		w, p = r.Chance(1, 3), r.Chance(1, 2)
+	case "once":
+		w, p = k == once, true
+	case "wantall-popthird":
+		w, p = true, k%3 == 2
+	case "want-only-end":
+		w, p = k == n, k == n
+	}
+	return w, p
+}
+
+// c13BoundaryOps: the W / P operations of the schedule at boundary k, in its order
+func c13BoundaryOps(r *lib.Rng, sched string, k, n, once int) []byte {
+	var ops []byte
+	w, p := c13AtBoundary(r, sched, k, n, once)
+	if sched == "popfirst" {
+		if p {
+			ops = append(ops, 'P')
+		}
+		if w {
+			ops = append(ops, 'W')
+		}
+	} else {
+		if w {
+			ops = append(ops, 'W')
+		}
+		if p {
+			ops = append(ops, 'P')
+		}
+	}
+	return ops
+}
+
 func c13Ops(r *lib.Rng, n int, sched string) []byte {
 	var ops []byte
 	once := r.Intn(n + 1)
 	for k := 0; k <= n; k++ {
-		w, p := false, false
-		switch sched {
-		case "all", "popfirst":
-			w, p = true, true
-		case "even":
-			w, p = k%2 == 0, true
-		case "third":
-			w, p = k%3 == 1, k%3 == 1
-		case "random":
-			w, p = r.Chance(1, 3), r.Chance(1, 2)
-		case "once":
-			w, p = k == once, true
-		case "wantall-popthird":
-			w, p = true, k%3 == 2
-		case "want-only-end":
-			w, p = k == n, k == n
-		}
-		if sched == "popfirst" {
-			if p {
-				ops = append(ops, 'P')
-			}
-			if w {
-				ops = append(ops, 'W')
-			}
-		} else {
-			if w {
-				ops = append(ops, 'W')
-			}
-			if p {
-				ops = append(ops, 'P')
-			}
-		}
+		ops = append(ops, c13BoundaryOps(r, sched, k, n, once)...)
 		ops = append(ops, 'R')
 	}
 	// one more read after the end (end of stream is sticky), then a last pop
@@ -481,50 +502,88 @@ func c13Ops(r *lib.Rng, n int, sched string) []byte {
 
 // c13Run drives a reader through ops; a panic or hang-free error ends the run.
 func c13Run(rc *wire.ReadContext, ops []byte, k0 int, mode int) []c13Ev {
-	var evs []c13Ev
-	k := k0
-	tg := &c13Target{mode: mode}
+	x := &c13Exec{rc: rc, tg: &c13Target{mode: mode}, k: k0}
 	for _, op := range ops {
-		ev := c13Ev{op: op, k: k}
-		cls, _ := lib.Guard(func() error {
-			switch op {
-			case 'W':
-				rc.WantSave()
-			case 'P':
-				ev.ck = rc.PopCheckpoint()
-				if ev.ck != nil {
-					g, err := c13Gob(ev.ck)
-					if err != nil {
-						return err
-					}
-					ev.gobbed = g
-				}
-			case 'R':
-				m := tg.next()
-				err := rc.ReadMessage(m)
-				ev.cls = c13Class(err)
-				if err == nil {
-					ev.msg = tg.keep(m)
-					k++
-				} else {
-					ev.detail = err.Error()
-				}
-			}
-			return nil
-		})
-		if cls != "ok" {
-			ev.cls = cls // panic | error (gob)
-		}
-		func() {
-			defer func() { recover() }()
-			ev.off, ev.cap, ev.save, ev.scOff = rc.VerifOffset(), rc.VerifBufCap(), rc.VerifSaveState(), rc.VerifSourceCheckpointOffset()
-		}()
-		evs = append(evs, ev)
-		if cls == "panic" {
+		x.do(op, -1)
+		if x.dead {
 			break
 		}
 	}
-	return evs
+	return x.evs
+}
+
+// c13Exec performs the operations of a schedule on one reader and records, after each of
+// them, what came back and the reader's state.
+type c13Exec struct {
+	rc    *wire.ReadContext
+	tg    *c13Target
+	k     int // position: messages before the reader
+	reads int // ReadMessage calls that returned a message
+	evs   []c13Ev
+	dead  bool // a panic (or a refused rewind) ended the run
+}
+
+// do performs one operation; target is for 'Z' only
+func (x *c13Exec) do(op byte, target int) *c13Ev {
+	rc := x.rc
+	ev := c13Ev{op: op, k: x.k, target: target}
+	cls, msg := lib.Guard(func() error {
+		switch op {
+		case 'W':
+			rc.WantSave()
+		case 'P':
+			ev.ck = rc.PopCheckpoint()
+			if ev.ck != nil {
+				g, err := c13Gob(ev.ck)
+				if err != nil {
+					return err
+				}
+				ev.gobbed = g
+			}
+		case 'R':
+			m := x.tg.next()
+			err := rc.ReadMessage(m)
+			ev.cls = c13Class(err)
+			if err == nil {
+				ev.msg = x.tg.keep(m)
+				x.k++
+				x.reads++
+			} else {
+				ev.detail = err.Error()
+			}
+		case 'Z':
+			var ck *wire.MessageReaderCheckpoint
+			if target >= 0 {
+				from := x.evs[target]
+				ev.kTo = from.k
+				var err error
+				if ck, err = c13Ungob(from.gobbed); err != nil {
+					return err
+				}
+			}
+			if err := rc.Resume(ck); err != nil {
+				return err
+			}
+			ev.cls = "ok"
+			x.k = ev.kTo
+		}
+		return nil
+	})
+	if cls != "ok" {
+		ev.cls = cls // panic | error (gob, Resume)
+		if ev.detail == "" {
+			ev.detail = msg
+		}
+	}
+	func() {
+		defer func() { recover() }()
+		ev.off, ev.cap, ev.save, ev.scOff = rc.VerifOffset(), rc.VerifBufCap(), rc.VerifSaveState(), rc.VerifSourceCheckpointOffset()
+	}()
+	x.evs = append(x.evs, ev)
+	if cls == "panic" || (op == 'Z' && cls != "ok") {
+		x.dead = true
+	}
+	return &x.evs[len(x.evs)-1]
 }
 
 // c13ReadTail: a brand-new source and reader over the same bytes (optionally having read
@@ -594,6 +653,15 @@ func c13Judge(st *c13Stream, evs []c13Ev, r *lib.Rng, fullBudget int64, stats *c
 		switch ev.op {
 		case 'W':
 			wants++
+		case 'Z':
+			what := "Resume(nil)"
+			if ev.target >= 0 {
+				what = fmt.Sprintf("Resume(the checkpoint this reader popped after %d messages, gob-decoded)", ev.kTo)
+			}
+			if ev.cls != "ok" {
+				return fmt.Sprintf("op %d: %s on the same reader, standing after %d messages: %s: %s", i, what, k, ev.cls, ev.detail)
+			}
+			k = ev.kTo
 		case 'R':
 			if ev.cls == "panic" {
 				return fmt.Sprintf("op %d: ReadMessage panicked after %d messages", i, k)
@@ -625,7 +693,7 @@ func c13Judge(st *c13Stream, evs []c13Ev, r *lib.Rng, fullBudget int64, stats *c
 				return fmt.Sprintf("checkpoint popped after %d messages carries no source checkpoint", k)
 			}
 			if so := ev.ck.SourceCheckpoint.Offset; so < 0 || so > ev.ck.Offset {
-				return fmt.Sprintf("source checkpoint offset %d outside [0, %d]", so, ev.ck.Offset)
+				return fmt.Sprintf("op %d: the checkpoint popped after %d messages (offset %d) carries a source checkpoint for offset %d, outside [0, %d]: no reader can resume from it", i, k, ev.ck.Offset, so, ev.ck.Offset)
 			}
 			if lag := ev.ck.Offset - ev.ck.SourceCheckpoint.Offset; lag > 0 {
 				stats.lagged++
@@ -639,6 +707,9 @@ func c13Judge(st *c13Stream, evs []c13Ev, r *lib.Rng, fullBudget int64, stats *c
 	// messages are compared after the whole run: a message must not be disturbed by later reads
 	k = 0
 	for _, ev := range evs {
+		if ev.op == 'Z' && ev.cls == "ok" {
+			k = ev.kTo
+		}
 		if ev.op == 'R' && ev.msg != nil {
 			if !c13Equal(ev.msg, st.msgs[k]) {
 				return fmt.Sprintf("message %d read back differently: %s", k, c13Diff(ev.msg, st.msgs[k]))
@@ -920,6 +991,7 @@ func sizesSummary(sz []int) interface{} {
 
 func runC13(c *Ctx) error {
 	c13Corpus(c)
+	c13RewindCorpus(c)
 	if err := c13Uvarint(c); err != nil {
 		return err
 	}
@@ -929,7 +1001,11 @@ func runC13(c *Ctx) error {
 	if err := c13Ckpt(c); err != nil {
 		return err
 	}
-	return c13Streams(c)
+	if err := c13Streams(c); err != nil {
+		return err
+	}
+	// (drawn last: the cases above are the same as before this family existed)
+	return c13Rewinds(c)
 }
 
 // ---------- oracle-only streams: all sizes, all codecs ----------
@@ -957,6 +1033,12 @@ func c13HowOf(j int) c13How {
 }
 
 func c13StreamCase(c *Ctx, cr *lib.Rng, prefix string, sq c13Seq, msgs []*wire.Sample, comp lib.Compression, sched string, fullBudget int64, chain bool, how c13How) {
+	c13StreamCaseRew(c, cr, prefix, sq, msgs, comp, sched, fullBudget, chain, how, nil)
+}
+
+// c13StreamCaseRew: eps != nil - the reader is also rewound / restarted (Resume on the same,
+// used reader) at the points and in the states eps describes (c13_rewind.go)
+func c13StreamCaseRew(c *Ctx, cr *lib.Rng, prefix string, sq c13Seq, msgs []*wire.Sample, comp lib.Compression, sched string, fullBudget int64, chain bool, how c13How, eps []c13Episode) {
 	t0 := time.Now()
 	st, err := c13Build(comp, msgs, how.pen)
 	input := map[string]interface{}{"seq": sq.name, "sizes": sizesSummary(sq.sizes), "fill": sq.kind, "codec": comp.String(), "sched": sched,
@@ -970,6 +1052,7 @@ func c13StreamCase(c *Ctx, cr *lib.Rng, prefix string, sq c13Seq, msgs []*wire.S
 	input["sectionLen"] = st.bounds[len(msgs)]
 	stats := &c13Stats{}
 	oracle := ""
+	rewinds := 0
 	var rc *wire.ReadContext
 	cls, msg := lib.Guard(func() error {
 		var err error
@@ -979,9 +1062,15 @@ func c13StreamCase(c *Ctx, cr *lib.Rng, prefix string, sq c13Seq, msgs []*wire.S
 	if cls != "ok" {
 		oracle = "opening the stream: " + cls + " " + msg
 	} else {
-		ops := c13Ops(cr, len(msgs), sched)
-		evs := c13Run(rc, ops, 0, how.read)
+		var evs []c13Ev
+		if eps != nil {
+			evs = c13Drive(rc, cr, len(msgs), sched, how.read, eps)
+			input["sameReaderResumes"] = c13EpisodesDone(evs)
+		} else {
+			evs = c13Run(rc, c13Ops(cr, len(msgs), sched), 0, how.read)
+		}
 		oracle = c13Judge(st, evs, cr, fullBudget, stats)
+		rewinds = c13CountOp(evs, 'Z')
 	}
 	chainGens := 0
 	if oracle == "" && chain {
@@ -993,7 +1082,7 @@ func c13StreamCase(c *Ctx, cr *lib.Rng, prefix string, sq c13Seq, msgs []*wire.S
 	}
 	c.Out.Emit(&lib.Case{Class: class, Nontrivial: stats.resumes > 0 && len(msgs) >= 2,
 		Input:  input,
-		Obs:    map[string]interface{}{"pops": stats.pops, "lagged": stats.lagged, "maxLag": stats.maxLag, "resumes": stats.resumes, "chainGenerations": chainGens, "ms": time.Since(t0).Milliseconds()},
+		Obs:    map[string]interface{}{"pops": stats.pops, "lagged": stats.lagged, "maxLag": stats.maxLag, "resumes": stats.resumes, "sameReaderResumes": rewinds, "chainGenerations": chainGens, "ms": time.Since(t0).Milliseconds()},
 		Oracle: oracle})
 }
 
@@ -1087,7 +1176,15 @@ func c13Ckpt(c *Ctx) error {
 	n := c13N(c, 42, 360)
 	codecs := c13Codecs(c13Deep(c))
 	for i := 0; i < n; i++ {
-		cr := r.Fork()
+		c13CkptCase(c, r.Fork(), i, codecs, false)
+	}
+	return nil
+}
+
+// c13CkptCase: one case of group "ckpt". rew: the reader is also resumed while in use
+// (c13_rewind.go); the model then replays those Resume calls too (Wire/Rewind.v).
+func c13CkptCase(c *Ctx, cr *lib.Rng, i int, codecs []lib.Compression, rew bool) {
+	{
 		comp := codecs[i%len(codecs)]
 		if i%3 == 0 {
 			comp = lib.Compressions[0] // seek source: the model predicts the emissions itself
@@ -1096,6 +1193,9 @@ func c13Ckpt(c *Ctx) error {
 		// carry more data so that block boundaries occur
 		var sizes []int
 		nm := cr.Range(0, 14)
+		if rew && nm < 3 {
+			nm += 3 // something to go back to
+		}
 		shape := cr.Intn(4)
 		if comp.Algo != pwr.CompressionAlgorithm_NONE && cr.Chance(2, 3) {
 			shape = 4
@@ -1125,11 +1225,20 @@ func c13Ckpt(c *Ctx) error {
 		input := map[string]interface{}{"sizes": sizes, "codec": comp.String(), "sched": sched,
 			"readInto": c13ModeName[how.read] + " message struct", "writerReusesStructAndBuffer": how.pen}
 		class := fmt.Sprintf("ckpt/%s/%s/shape%d/%s", comp.String(), sched, shape, how)
+		if rew {
+			class = "ckpt-rewind" + class[4:]
+		}
 		if err != nil {
 			c.Out.Emit(&lib.Case{Class: class, Input: input, Oracle: err.Error()})
-			continue
+			return
 		}
-		ops := c13Ops(cr, len(msgs), sched)
+		var ops []byte
+		var eps []c13Episode
+		if rew {
+			eps = c13Episodes(cr, len(msgs), cr.Range(1, 3))
+		} else {
+			ops = c13Ops(cr, len(msgs), sched)
+		}
 		var rc *wire.ReadContext
 		cls, msg := lib.Guard(func() error {
 			var err error
@@ -1138,24 +1247,35 @@ func c13Ckpt(c *Ctx) error {
 		})
 		if cls != "ok" {
 			c.Out.Emit(&lib.Case{Class: class, Input: input, Oracle: "opening the stream: " + cls + " " + msg})
-			continue
+			return
 		}
 		cap0 := rc.VerifBufCap()
-		evs := c13Run(rc, ops, 0, how.read)
+		var evs []c13Ev
+		if rew {
+			evs = c13Drive(rc, cr, len(msgs), sched, how.read, eps)
+			input["sameReaderResumes"] = c13EpisodesDone(evs)
+		} else {
+			evs = c13Run(rc, ops, 0, how.read)
+		}
 		stats := &c13Stats{}
 		oracle := c13Judge(st, evs, cr, 1<<40, stats)
 
 		// observed source behaviour: the read during which the save state turned "has source checkpoint"
-		type emission struct{ before, after, scOff, restart int64 }
+		// (rows are keyed by the index of the operation: with rewinds the same read happens twice)
+		type emission struct {
+			op             int
+			scOff, restart int64
+		}
 		var table []emission
 		prevSave := 0
-		prevOff := int64(0)
 		scOffAt := map[int64]int64{} // source checkpoint offset -> measured restart
-		for _, ev := range evs {
-			if ev.op == 'R' && prevSave != 2 && ev.save == 2 {
-				table = append(table, emission{prevOff, ev.off, ev.scOff, ev.scOff})
+		for j, ev := range evs {
+			// (Resume drops what the reader held: a checkpoint held right after it arrived while
+			// the bytes up to the checkpoint's offset were read and discarded)
+			if ev.save == 2 && (ev.op == 'R' && prevSave != 2 || ev.op == 'Z' && ev.cls == "ok") {
+				table = append(table, emission{j, ev.scOff, ev.scOff})
 			}
-			prevSave, prevOff = ev.save, ev.off
+			prevSave = ev.save
 		}
 		// resumptions compared with the model: up to 3 popped checkpoints
 		var popIdx []int
@@ -1189,10 +1309,13 @@ func c13Ckpt(c *Ctx) error {
 			if cls != "ok" && oracle == "" {
 				oracle = fmt.Sprintf("source refuses its own checkpoint (popped after %d messages): %s %s", ev.k, cls, msg)
 			}
-			if restart > ev.ck.SourceCheckpoint.Offset && oracle == "" {
-				oracle = fmt.Sprintf("source restarted at %d, after its checkpoint's offset %d", restart, ev.ck.SourceCheckpoint.Offset)
+			// (a checkpoint without source checkpoint: the oracle has said so above)
+			if sc := ev.ck.SourceCheckpoint; sc != nil {
+				if restart > sc.Offset && oracle == "" {
+					oracle = fmt.Sprintf("source restarted at %d, after its checkpoint's offset %d", restart, sc.Offset)
+				}
+				scOffAt[sc.Offset] = restart
 			}
-			scOffAt[ev.ck.SourceCheckpoint.Offset] = restart
 			got, end, _ := c13ReadTail(st.raw, ev.gobbed, 0, -1, how.read)
 			var fps []string
 			for _, m := range got {
@@ -1216,7 +1339,7 @@ func c13Ckpt(c *Ctx) error {
 		if comp.Algo != pwr.CompressionAlgorithm_NONE {
 			var rows []string
 			for _, e := range table {
-				rows = append(rows, fmt.Sprintf("row %d %d %d %d", e.before, e.after, e.scOff, e.restart))
+				rows = append(rows, fmt.Sprintf("row %d %d %d", e.op, e.scOff, e.restart))
 			}
 			beh = "(Some " + lib.CoqList(rows) + ")"
 		}
@@ -1225,11 +1348,18 @@ func c13Ckpt(c *Ctx) error {
 		for _, ev := range evs {
 			snap := fmt.Sprintf("%d %d %d", ev.off, ev.cap, ev.save)
 			switch ev.op {
+			case 'Z':
+				if ev.target < 0 {
+					opsS = append(opsS, "xz_nil")
+				} else {
+					opsS = append(opsS, fmt.Sprintf("(xz %d)", ev.target))
+				}
+				evS = append(evS, fmt.Sprintf("ob (ERes %v) %s", ev.cls == "ok", snap))
 			case 'W':
-				opsS = append(opsS, "OWant")
+				opsS = append(opsS, "XW")
 				evS = append(evS, "ob EWant "+snap)
 			case 'P':
-				opsS = append(opsS, "OPop")
+				opsS = append(opsS, "XP")
 				if ev.ck == nil {
 					evS = append(evS, "ob (EPop None) "+snap)
 				} else {
@@ -1238,10 +1368,14 @@ func c13Ckpt(c *Ctx) error {
 					} else {
 						evS = append(evS, fmt.Sprintf("ob (pop_nosrc %d) %s", ev.ck.Offset, snap))
 					}
-					evObs = append(evObs, map[string]interface{}{"popAfter": ev.k, "offset": ev.ck.Offset, "sourceOffset": ev.ck.SourceCheckpoint.Offset})
+					so := int64(-1)
+					if ev.ck.SourceCheckpoint != nil {
+						so = ev.ck.SourceCheckpoint.Offset
+					}
+					evObs = append(evObs, map[string]interface{}{"popAfter": ev.k, "offset": ev.ck.Offset, "sourceOffset": so})
 				}
 			case 'R':
-				opsS = append(opsS, "ORead")
+				opsS = append(opsS, "XR")
 				if ev.msg != nil {
 					b, _ := c13Body(ev.msg)
 					l, s := fpOf(b)
@@ -1254,11 +1388,10 @@ func c13Ckpt(c *Ctx) error {
 		c.Out.Emit(&lib.Case{Group: "ckpt", Class: class,
 			Nontrivial: stats.pops > 0 && len(msgs) >= 2,
 			Input:      input,
-			Obs:        map[string]interface{}{"pops": evObs, "resumes": resObs, "emissions": len(table), "cap0": cap0},
+			Obs:        map[string]interface{}{"pops": evObs, "resumes": resObs, "emissions": len(table), "cap0": cap0, "sameReaderResumes": c13CountOp(evs, 'Z')},
 			Oracle:     oracle,
 			Coq:        fmt.Sprintf("mk_ckpt $ID%%N %d %s %s %s %s %s", cap0, coqRleBodies(st.bodies), lib.CoqList(opsS), beh, lib.CoqList(evS), lib.CoqList(resumes))})
 	}
-	return nil
 }
 
 // ---------- group "frame": stream bytes and every truncation ----------
